@@ -8,7 +8,7 @@ import (
 
 // Every generated function has these parameters; impure operands are calls of the functions declared
 // in Preamble (in differential programs they log their name and return values from a script).
-const Params = "a, b, c int, u, v uint, p, q float64, s, t string, k, l bool, xs []int, bs []byte, ms myStr, mi myInts, mm myMap, ma myArr, pa *myArr, w *wr, mf, mg myF, mc, mc2 myC, fa [2]myF"
+const Params = "a, b, c int, u, v uint, p, q float64, s, t string, k, l bool, xs []int, bs []byte, ms myStr, mi myInts, mm myMap, ma myArr, pa *myArr, w *wr, mf, mg myF, mc, mc2 myC, fa [2]myF, vv val, it *iter"
 
 // Preamble for files that are only analysed (never run).
 const LintPreamble = `
@@ -50,6 +50,19 @@ type wr struct {
 
 func (w *wr) flush() { w.err = myErr{}; w.buf = []int{1} }
 func (w *wr) peek() int { return len(w.buf) }
+
+
+// a value type with the comparison methods the dupArg method rules name, and an iterator whose Next has effects
+type val struct{ n int }
+
+func (v val) Equal(o val) bool  { return v.n == o.n }
+func (v val) Equals(o val) bool { return v.n == o.n }
+func (v val) Compare(o val) int { return v.n - o.n }
+func (v val) Cmp(o val) int     { return v.n - o.n }
+
+type iter struct{ i int }
+
+func (it *iter) Next() val { it.i++; return val{it.i} }
 
 var gxs []int
 
